@@ -3,8 +3,13 @@
 //   CRUN <planner> <system point|car> <env> <query 0..3> <stepsize> <minsteps> <maxsteps> <threshold> <seed> <evaluations> <seconds>
 // output: STATUS code has before after approx diff   NSTATES n   START ok   CSEG steps whole minmax ctrl_inb reproduced all_valid # detail
 //         LAST goal gdist   END
+#define protected public
+#include <ompl/control/planners/rrt/RRT.h>
+#undef protected
 #include "planning_common.h"
 #include <deque>
+#include <ompl/datastructures/NearestNeighborsLinear.h>
+#include <ompl/base/goals/GoalState.h>
 #include <ompl/control/SpaceInformation.h>
 #include <ompl/control/SimpleDirectedControlSampler.h>
 #include <ompl/control/spaces/RealVectorControlSpace.h>
@@ -51,6 +56,15 @@ public:
     const ob::StateSpace *sp = nullptr;
 };
 
+// a state sampler that hands out scripted 1-D states
+struct ScriptStateSampler1 : public ob::StateSampler
+{
+    ScriptStateSampler1(const ob::StateSpace *sp, std::shared_ptr<std::deque<double>> q) : ob::StateSampler(sp), q_(std::move(q)) {}
+    std::shared_ptr<std::deque<double>> q_;
+    void sampleUniform(ob::State *s) override { double x = 0; if (!q_->empty()) { x = q_->front(); q_->pop_front(); } s->as<ob::RealVectorStateSpace::StateType>()->values[0] = x; }
+    void sampleUniformNear(ob::State *s, const ob::State *, double) override { sampleUniform(s); }
+    void sampleGaussian(ob::State *s, const ob::State *, double) override { sampleUniform(s); }
+};
 // a control sampler that hands out scripted controls and step counts (for SimpleDirectedControlSampler::getBestControl)
 struct ScriptControlSampler : public oc::ControlSampler
 {
@@ -84,6 +98,64 @@ int main(int argc, char **argv)
             std::vector<ob::State *> vec; unsigned n2 = si->propagateWhileValid(s, c, steps, vec, true);
             std::cout << "pwv " << pr << " | " << n1 << " " << r1 << " | " << n2; for (auto *x : vec) { std::cout << " " << std::lround(x->as<ob::RealVectorStateSpace::StateType>()->values[0]); sp->freeState(x); }
             std::cout << std::endl; sp->freeState(s); sp->freeState(r); cs->freeControl(c); return;
+        }
+        if (line.rfind("CRRT ", 0) == 0)
+        {   // CRRT <goal> <thr> <minDur> <maxDur> <k> <iters> <tapeSeed> <bias> B <n> bad... S <n> starts... P <n> samples... U <n> {u steps}...
+            //   control::RRT on R^1 (propagator x -> x + u per step), directed control sampler with k scripted candidates per iteration,
+            //   scripted state sampler, goal-bias draws from the RNG tape, linear nearest neighbours, IterationTerminationCondition(iters)
+            std::istringstream pin(line); std::string c0, tag; long goal, thr; unsigned mind, maxd, k, iters; unsigned long tseed; double bias; int n;
+            pin >> c0 >> goal >> thr >> mind >> maxd >> k >> iters >> tseed >> bias;
+            std::set<long> bad; std::vector<long> starts; auto samples = std::make_shared<std::deque<double>>();
+            auto us = std::make_shared<std::deque<double>>(); auto ns = std::make_shared<std::deque<unsigned>>();
+            pin >> tag >> n; for (int i = 0; i < n; ++i) { long b; pin >> b; bad.insert(b); }
+            pin >> tag >> n; for (int i = 0; i < n; ++i) { long b; pin >> b; starts.push_back(b); }
+            pin >> tag >> n; for (int i = 0; i < n; ++i) { double b; pin >> b; samples->push_back(b); }
+            pin >> tag >> n; for (int i = 0; i < n; ++i) { double u; unsigned st; pin >> u >> st; us->push_back(u); ns->push_back(st); }
+            auto sp = std::make_shared<ob::RealVectorStateSpace>(1); sp->setBounds(-1e6, 1e6);
+            sp->setStateSamplerAllocator([samples](const ob::StateSpace *s) { return std::make_shared<ScriptStateSampler1>(s, samples); });
+            auto cs = std::make_shared<oc::RealVectorControlSpace>(sp, 1); ob::RealVectorBounds cb1(1); cb1.setLow(-100); cb1.setHigh(100); cs->setBounds(cb1);
+            cs->setControlSamplerAllocator([us, ns](const oc::ControlSpace *c) { return std::make_shared<ScriptControlSampler>(c, us, ns); });
+            auto si = std::make_shared<oc::SpaceInformation>(sp, cs);
+            si->setStateValidityChecker([bad](const ob::State *s) { return bad.count(std::lround(s->as<ob::RealVectorStateSpace::StateType>()->values[0])) == 0; });
+            si->setStatePropagator([](const ob::State *s, const oc::Control *c, double, ob::State *r)
+                { r->as<ob::RealVectorStateSpace::StateType>()->values[0] = s->as<ob::RealVectorStateSpace::StateType>()->values[0] + c->as<oc::RealVectorControlSpace::ControlType>()->values[0]; });
+            si->setPropagationStepSize(0.125); si->setMinMaxControlDuration(mind, maxd);
+            si->setDirectedControlSamplerAllocator([k](const oc::SpaceInformation *i) { return std::make_shared<oc::SimpleDirectedControlSampler>(i, k); });
+            si->setup();
+            auto pdef = std::make_shared<ob::ProblemDefinition>(si);
+            for (long x : starts) { ob::ScopedState<> a(sp); a[0] = (double)x; pdef->addStartState(a); }
+            ob::ScopedState<> g(sp); g[0] = (double)goal; pdef->setGoalState(g, (double)thr);
+            auto planner = std::make_shared<oc::RRT>(si);
+            planner->setNearestNeighbors<ompl::NearestNeighborsLinear>(); planner->setGoalBias(bias);
+            planner->setProblemDefinition(pdef); planner->setup();
+            std::vector<double> tape; for (unsigned long q = 0; q < (unsigned long)iters + 8; ++q) tape.push_back((double)((tseed + 7 * q + 3 * q * q) % 64) / 64.0);
+            ob::IterationTerminationCondition itc(iters);
+            ompl::RNG::verifSetTape(tape.data(), tape.size());
+            planner->solve(ob::PlannerTerminationCondition(itc));
+            ompl::RNG::verifSetTape(nullptr, 0);
+            std::vector<oc::RRT::Motion *> ms; planner->nn_->list(ms);
+            std::map<const oc::RRT::Motion *, long> idx; for (std::size_t i = 0; i < ms.size(); ++i) idx[ms[i]] = (long)i;
+            std::printf("crrt %zu;", ms.size());
+            for (auto *m : ms)
+            {
+                long x = std::lround(m->state->as<ob::RealVectorStateSpace::StateType>()->values[0]);
+                if (m->parent) std::printf(" %ld %ld %ld %u;", x, idx[m->parent], std::lround(m->control->as<oc::RealVectorControlSpace::ControlType>()->values[0]), m->steps);
+                else std::printf(" %ld -1;", x);
+            }
+            if (pdef->hasSolution())
+            {
+                auto path = std::dynamic_pointer_cast<oc::PathControl>(pdef->getSolutionPath());
+                std::printf(" | 1 %d %ld |", pdef->hasApproximateSolution() ? 1 : 0, pdef->hasApproximateSolution() ? std::lround(pdef->getSolutionDifference()) : 0L);
+                for (std::size_t i = 0; i < path->getStateCount(); ++i)
+                {
+                    long x = std::lround(path->getState(i)->as<ob::RealVectorStateSpace::StateType>()->values[0]);
+                    if (i == 0) std::printf(" %ld;", x);
+                    else std::printf(" %ld %ld %ld;", x, std::lround(path->getControl(i - 1)->as<oc::RealVectorControlSpace::ControlType>()->values[0]), std::lround(path->getControlDuration(i - 1) / 0.125));
+                }
+            }
+            else std::printf(" | 0 |");
+            std::printf("\n"); std::fflush(stdout);
+            return;
         }
         if (line.rfind("DCS ", 0) == 0)
         {   // DCS <start> <target> <invalid values...> | u1 n1 u2 n2 ...: getBestControl with k = number of (control, steps) pairs on R^1, propagator x -> x + u
